@@ -1064,7 +1064,12 @@ func checkSlotNormalisation(c *core.Ctx, rule9, rule10 string) {
 				}
 				n++
 				txt := core.ExprStr(call.Args[idx])
-				c.Check(rule9 == "" || normalisedBefore(cc.Body, call.Pos(), txt), rule9x(rule9), fmt.Sprintf("%s in arm %s (`%s`) is zero-extended first", what, label, core.ExprStr(call.Fun)), call.Pos(),
+				okNorm := normalisedBefore(cc.Body, call.Pos(), txt)
+				// a prefix s[:n] of a normalised slice is normalised
+				if sl, isSl := ast.Unparen(call.Args[idx]).(*ast.SliceExpr); isSl && !okNorm && sl.Low == nil {
+					okNorm = normalisedBefore(cc.Body, call.Pos(), core.ExprStr(sl.X))
+				}
+				c.Check(rule9 == "" || okNorm, rule9x(rule9), fmt.Sprintf("%s in arm %s (`%s`) is zero-extended first", what, label, core.ExprStr(call.Fun)), call.Pos(),
 					"the 32-bit slots of `"+txt+"` are masked before the call", "generated code stored only the low 4 bytes of the i32/f32 values into `"+txt+"`; it is handed to Go code without masking, so the host function / listener sees stale upper halves (e.g. 0xffffffff00000005 for i32 5) where the interpreter passes zero-extended slots")
 				return true
 			})
